@@ -116,7 +116,8 @@ def run_corpus(props: List[str], quiet: bool = True, jobs: int = 0) -> Dict[str,
             work.append(("seeded", str(d), [own]))
     out: Dict[str, Any] = {"benign_applied": 0, "benign_silent": 0, "benign_skipped": 0,
                            "seeded_applied": 0, "seeded_reported": 0, "seeded_skipped": 0,
-                           "seeded_undecided": sorted(UNDECIDED), "alarms": [], "missed": []}
+                           "seeded_undecided": sorted(UNDECIDED), "alarms": [], "missed": [],
+                           "benign_undecided": []}
     jobs = jobs or min(16, os.cpu_count() or 4)
     with mp.Pool(jobs) as pool:
         for kind, path, res in pool.imap_unordered(_one, work, chunksize=2):
@@ -127,11 +128,16 @@ def run_corpus(props: List[str], quiet: bool = True, jobs: int = 0) -> Dict[str,
             out["%s_applied" % kind] += 1
             if kind == "benign":
                 bad = {p: r for p, r in res["reports"].items() if r}
-                bad.update({p: ["cannot decide: " + e] for p, e in res["errors"].items()})
                 if bad:
                     out["alarms"].append("%s: %s" % (name, bad))
                     if not quiet:
                         print("ALARM  benign %s %s" % (name, bad))
+                elif res["errors"]:
+                    # a spelling outside the fragment of some rule: the check says so (exit 2) and
+                    # raises no alarm; counted, not hidden
+                    out["benign_undecided"].append("%s: %s" % (name, res["errors"]))
+                    if not quiet:
+                        print("undecided benign %s %s" % (name, res["errors"]))
                 else:
                     out["benign_silent"] += 1
             else:
@@ -145,9 +151,11 @@ def run_corpus(props: List[str], quiet: bool = True, jobs: int = 0) -> Dict[str,
                     if not quiet:
                         print("MISSED seeded %s %s" % (name, res["errors"] or ""))
     if not quiet:
-        print("corpus: %d/%d behaviour-preserving patches silent (%d skipped), %d/%d seeded changes "
+        print("corpus: %d/%d behaviour-preserving patches silent, %d undecided (exit 2), %d alarms "
+              "(%d skipped); %d/%d seeded changes "
               "reported by their own property's rules (%d skipped, %d declared undecided)"
-              % (out["benign_silent"], out["benign_applied"], out["benign_skipped"],
+              % (out["benign_silent"], out["benign_applied"], len(out["benign_undecided"]), len(out["alarms"]),
+                 out["benign_skipped"],
                  out["seeded_reported"], out["seeded_applied"], out["seeded_skipped"], len(UNDECIDED)))
     return out
 
